@@ -75,7 +75,7 @@ func main() {
 		fns   []string
 	}{
 		{"C08", []string{"clover..buildQueryPlan", "clover.sortNode.Finish", "clover.sortNode.Callback", "clover..compareDocuments",
-			"query..normalizeSortOptions", "query.Query.Skip", "query.Query.Limit", "query.Query.Sort", "clover..execPlan", "clover.consumerNode.Callback"}},
+			"query..normalizeSortOptions", "query.Query.Sort", "clover..execPlan", "clover.consumerNode.Callback"}},
 		{"C02", []string{"clover..tryToSelectIndex", "clover..getIndexQueries", "clover.iterNode.iterateIndex", "clover.iterNode.iterateFullCollection", "clover.iterNode.Run",
 			"clover.NotFlattenVisitor.VisitUnaryCriteria", "clover.NotFlattenVisitor.VisitBinaryCriteria", "clover.NotFlattenVisitor.VisitNotCriteria", "clover.NotFlattenVisitor.removeNotCriteria",
 			"clover.IndexSelectVisitor.VisitUnaryCriteria", "clover.IndexSelectVisitor.VisitBinaryCriteria", "clover.IndexSelectVisitor.VisitNotCriteria",
@@ -86,7 +86,7 @@ func main() {
 		{"C17", []string{"index.rangeIndex.encodeRange", "index.rangeIndex.IterateRange", "index.rangeIndex.Iterate"}},
 		{"C16 C01", []string{"query.UnaryCriteria.Satisfy", "query..getFieldOrValue",
 			"query.UnaryCriteria.in", "query.UnaryCriteria.contains", "query.UnaryCriteria.like", "query..IsField",
-			"query..and", "query..or", "query..not", "query..newCriteria", "query.field.Neq", "query.field.NotExists", "query.field.In", "query.field.Contains", "query.field.Eq", "query.field.Exists", "query.field.IsNil", "query.field.IsTrue", "query.field.IsFalse", "query.field.IsNilOrNotExists", "query.field.Gt", "query.field.GtEq", "query.field.Lt", "query.field.LtEq", "query.field.Like", "query..Field", "query.NotCriteria.Not", "query.NotCriteria.And", "query.NotCriteria.Or", "query.BinaryCriteria.Not", "query.BinaryCriteria.And", "query.BinaryCriteria.Or", "query.UnaryCriteria.Not", "query.UnaryCriteria.And", "query.UnaryCriteria.Or", "query.Query.Where", "query.Query.MatchFunc", "query..NewQuery", "query.Query.copy",
+			"query..and", "query..or", "query..not", "query..newCriteria", "query.field.Neq", "query.field.NotExists", "query.field.In", "query.field.Contains", "query.field.Eq", "query.field.Exists", "query.field.IsNil", "query.field.IsTrue", "query.field.IsFalse", "query.field.IsNilOrNotExists", "query.field.Gt", "query.field.GtEq", "query.field.Lt", "query.field.LtEq", "query.field.Like", "query..Field", "query.NotCriteria.Not", "query.NotCriteria.And", "query.NotCriteria.Or", "query.BinaryCriteria.Not", "query.BinaryCriteria.And", "query.BinaryCriteria.Or", "query.UnaryCriteria.Not", "query.UnaryCriteria.And", "query.UnaryCriteria.Or", "query.Query.Where", "query.Query.MatchFunc", "query..NewQuery",
 			"clover.CriteriaNormalizeVisitor.VisitUnaryCriteria", "clover.CriteriaNormalizeVisitor.VisitBinaryCriteria", "clover.CriteriaNormalizeVisitor.VisitNotCriteria",
 			"clover..normalizeOperand", "clover..isFieldReference", "clover..normalizeCriteria", "query.Query.satisfy"}},
 		{"C01", []string{"clover.DB.FindAll", "clover.DB.IterateDocs", "clover.DB.iterateDocs", "clover.iterNode.iterateIndex", "clover.iterNode.iterateFullCollection"}},
@@ -140,7 +140,8 @@ func main() {
 	// same passes, one that does not breaks the proof
 	translated := []string{"index.Range.IsEmpty", "index.Range.IsNil", "index.Range.Intersect", "internal..compareInt64", "internal..compareUint64",
 		"util..BoolToInt", "clover.skipLimitNode.Callback", "clover..unaryCriteriaToRange",
-		"query.UnaryCriteria.compare", "query.UnaryCriteria.eq", "query.UnaryCriteria.exist", "query.BinaryCriteria.Satisfy", "query.NotCriteria.Satisfy"}
+		"query.UnaryCriteria.compare", "query.UnaryCriteria.eq", "query.UnaryCriteria.exist", "query.BinaryCriteria.Satisfy", "query.NotCriteria.Satisfy",
+		"query.Query.copy", "query.Query.Skip", "query.Query.Limit"}
 	wanted := map[string]bool{}
 	for _, f := range translated {
 		wanted[f] = true
